@@ -110,11 +110,11 @@ def std_cases(rng, tables, n_per_table, exact=False, budget=0, back=True, tag="t
 # ---------------------------------------------------------------------------------------------
 # wide generated tables (gen_features.py): every opcode family with operands of unusual shapes,
 # inputs built from the rules' own strings, emphasis typeforms, capacity sweeps
-def wide_cases(rng, ntab, per_table=8, back=True, exact=True, budget=0, tag="w", modes_f=None, modes_b=None, argmasks=None):
+def wide_cases(rng, ntab, per_table=8, back=True, exact=True, budget=0, tag="w", modes_f=None, modes_b=None, argmasks=None, groupreplace=False):
     from . import gen_features as GF
     cases = []
     for i in range(ntab):
-        w = GF.gen(rng)
+        w = GF.gen(rng, groupreplace=groupreplace)
         tn = "%s%d.ctb" % (tag, i)
         setup = ["HOOK trace 1"]
         if exact:
